@@ -29,6 +29,7 @@ import (
 	"strings"
 	"testing"
 
+	"github.com/go-viper/mapstructure/v2"
 	"gopkg.in/yaml.v3"
 
 	"github.com/dadrus/heimdall/internal/config/parser"
@@ -154,6 +155,18 @@ func c20mRemove(v any, path []any) any {
 			delete(t, k)
 		} else {
 			t[k] = c20mRemove(t[k], path[1:])
+
+			// a map that lost its last entry goes too (a list that lost its last element as well)
+			switch sub := t[k].(type) {
+			case map[string]any:
+				if len(sub) == 0 {
+					delete(t, k)
+				}
+			case []any:
+				if len(sub) == 0 {
+					delete(t, k)
+				}
+			}
 		}
 
 		return t
@@ -171,6 +184,26 @@ func c20mRemove(v any, path []any) any {
 		}
 
 		t[i] = c20mRemove(t[i], path[1:])
+
+		// trailing elements that lost everything go too
+		for len(t) > 0 {
+			switch last := t[len(t)-1].(type) {
+			case map[string]any:
+				if len(last) == 0 {
+					t = t[:len(t)-1]
+
+					continue
+				}
+			case []any:
+				if len(last) == 0 {
+					t = t[:len(t)-1]
+
+					continue
+				}
+			}
+
+			break
+		}
 
 		return t
 	}
@@ -263,6 +296,8 @@ func c20mLoaderOnly(file string) (ok bool) {
 	result := defaultConfig()
 
 	return parser.New(parser.WithConfigFile(file), parser.WithEnvPrefix(c20mPrefix),
+		parser.WithDecodeHookFunc(mapstructure.StringToTimeDurationHookFunc()),
+		parser.WithDecodeHookFunc(mapstructure.StringToSliceHookFunc(",")),
 		parser.WithDecodeHookFunc(logLevelDecodeHookFunc), parser.WithDecodeHookFunc(logFormatDecodeHookFunc),
 		parser.WithDecodeHookFunc(DecodeTLSCipherSuiteHookFunc), parser.WithDecodeHookFunc(DecodeTLSMinVersionHookFunc),
 		parser.WithDecodeHookFunc(StringToByteSizeHookFunc())).Load(&result) == nil
